@@ -164,7 +164,7 @@ pub const NUMERIC_BOUNDARY: &[&str] = &[
     "00000000000000000000018446744073709551616", "00000000000000000000.5", "0000000000000000000001e5", "000000000000000000000ffx",
     "00000000000000000000000000000000000000001", "1e00000005", "2.5e-0000003", "1e10000000", "1e-00000000000000000001", "1E+0000000000308",
     "0x", "00x", "0e0", "0.0e-0", "1.e1", ".1e1", "1.5E+10", "1e+", "1e-", "1E", "1fx", "1Fx", "0AX", "9ax", "1ex", "1e5x", "1e5",
-    "12ab", "1a", "0b", "0d", "1dx", "1e1e1", "1.2.3", "1..", "1.x", ".5x",
+    "12ab", "1a", "0b", "0d", "1dx", "1e1e1", "1.2.3", "1..", "1.x", ".5x", "1.5x", "12.x", "1e-3x", "1.5e+3X", "1.5X", "1e+5x", "0.5e-1x",
 ];
 
 pub fn numeric_in_context(lit: &str, r: &mut Rng) -> (String, &'static str) {
@@ -176,6 +176,15 @@ pub fn numeric_in_context(lit: &str, r: &mut Rng) -> (String, &'static str) {
             0 => (format!("x = {lit}{a};"), "open"),
             1 => (format!("%sysevalf({lit}{a})"), "float-eval"),
             _ => (format!("{lit}{a} {lit}"), "open"),
+        };
+    }
+    // a literal directly followed by a letter that could continue another notation
+    if r.chance(1, 10) {
+        let a = r.pick(&["x", "X", "e", "E", "d", "f", "x1", "xe"]);
+        return match r.below(3) {
+            0 => (format!("x = {lit}{a};"), "open"),
+            1 => (format!("%sysevalf({lit}{a})"), "float-eval"),
+            _ => (format!("{lit}{a}"), "open"),
         };
     }
     match r.below(8) {
@@ -266,6 +275,18 @@ pub fn deep_call_case(r: &mut Rng) -> String {
         _ => k,
     };
     format!("{}{}{}{};", prefix, open.repeat(k), inner, close.repeat(closers))
+}
+
+/// Many nested, unclosed constructs that are all abandoned at once (by a statement keyword, a
+/// `;`, or the end of input), optionally inside a string expression: long runs of main-loop
+/// iterations that consume no input, and a deep stack to unwind.
+pub fn cascade_case(r: &mut Rng) -> String {
+    let k = r.pick(&[3usize, 15, 16, 17, 20, 39, 40, 41, 42, 64, 81, 100]);
+    let open = r.pick(&["%eval(", "%sysevalf(", "%sysfunc(f(", "%m(", "%m(a=", "%str(", "%upcase(", "%scan(a,", "%eval((", "%if ", "%nrstr(", "%qsysfunc(f(", "%m(a b,"]);
+    let prefix = r.pick(&["", "title \"", "x = \"pre ", "%let v=", "%put ", "\"", "%macro q; ", "%do i=1 %to "]);
+    let breaker = r.pick(&["%let x=1;", "%mend;", "%put done;", ";", "%end;", "%macro z;", "", "%do;", "%if 1 %then", "%global g;", "\"", "%*c;", "%lbl:"]);
+    let tail = r.pick(&["", " tail\";", " y=2;", "\" ;", "\n"]);
+    format!("{}{}{}{}", prefix, open.repeat(k), breaker, tail)
 }
 
 /// A source that raises very many diagnostics before a recoverable missing symbol.
@@ -414,7 +435,8 @@ pub fn structural_targeted(prop: &str, r: &mut Rng, corpus: &Corpus, tier: Tier)
             }
             _ => error_case(r, corpus),
         },
-        "C10" => match r.below(4) {
+        "C10" => match r.below(5) {
+            4 => cascade_case(r),
             3 => deep_call_case(r),
             0 => nesting_case(r),
             1 => {
